@@ -478,3 +478,11 @@ Proof.
 Qed.
 
 End Main.
+
+Theorem same_function_same_count (C1 C2 : circuit) (n : nat) :
+  WF C1 n -> WF C2 n ->
+  (forall s, eval_root s C1 = eval_root s C2) -> root_count C1 = root_count C2.
+Proof.
+  intros H1 H2 He. rewrite (count_is_MC C1 n H1), (count_is_MC C2 n H2).
+  unfold MC, Models. f_equal. f_equal. apply filter_ext. intros m. apply He.
+Qed.
